@@ -33,6 +33,8 @@ pub use db::{VerifColumnStatus, VerifStatus};
 pub use index::verif_hooks as verif_index;
 #[cfg(feature = "instrumentation")]
 pub use error::set_number_of_allowed_io_operations;
+#[cfg(all(feature = "instrumentation", parity_db_verif))]
+pub use error::verif_injected_failures;
 pub use error::{Error, Result};
 pub use migration::{clear_column, migrate};
 pub use multitree::{Children, NewNode, NodeAddress, NodeRef};
